@@ -390,3 +390,30 @@ def run(pm, ctx):
                   'text in the module', key='C09-R5|%s|doc-prefix' % ad.qualname)
     totality.run_pack(pm, ctx, 'C09-R6', ('stone.backends.python_helpers', 'stone.backends.python_types'),
                       True, 'python_types and python_helpers', TOTALITY_PRECONDITIONS, (60, 6, 0))
+
+    # ---------------- R7: the module-level validator constructors cannot fail at import
+    ctx.rule('C09-R7', 'runtime validator constructors accept every parameter combination the '
+                       'compile-side type constructors accept (their asserts run at import time)')
+    from .. import ctorprofile
+    IRD, BVD = 'stone.ir.data_types.', 'stone.backends.python_rsrc.stone_validators.'
+    bound_names = {'default_minimum': 'minimum', 'default_maximum': 'maximum'}
+    for irc, bvc, amap in (('String', 'String', {}), ('List', 'List', {}),
+                           ('_BoundedInteger', 'Integer', bound_names),
+                           ('_BoundedFloat', 'Real', bound_names)):
+        fi, fb = pm.func(IRD + irc + '.__init__'), pm.func(BVD + bvc + '.__init__')
+        crel, cirr = ctorprofile.reject_relations(fi)
+        rrel, rirr = ctorprofile.reject_relations(fb, amap)
+        probs = ctorprofile.compare(crel, rrel)
+        ctx.check('C09-R7', not probs and not rirr,
+                  'bv.%s(...) accepts what ir.%s(...) accepts (%d runtime, %d compile relations)'
+                  % (bvc, irc, len(rrel), len(crel)), fb.loc,
+                  msg='bv.%s.__init__ refuses parameter combinations that ir.%s accepts: %s%s -- '
+                      'the generated module raises AssertionError when it is imported'
+                      % (bvc, irc, '; '.join('%s: runtime refuses %s, compiler only %s' % p_
+                                             for p_ in probs),
+                         ' (irreducible refusals at lines %s)' % [l for l, _ in rirr]
+                         if rirr else ''),
+                  key='C09-R7|%s' % fb.qualname)
+        ctx.check('C09-R7', len(rrel) >= 2, 'bv.%s constructor relations recognised' % bvc, fb.loc,
+                  msg='fewer constructor constraints recognised in bv.%s than confirmed by '
+                      'reading' % bvc, key='C09-R7|%s|recognised' % fb.qualname)
